@@ -347,6 +347,10 @@ def c09_shards(tier):
         sh.append(mcx("gating-%s" % nm, prop="C09", table=T_GATE, cap=8, name_alpha="+ABCDOL", max_name=4, args_alpha="1", max_args=1, suffix_mask=sm,
                       D=0, lines=0, lower=0, refuse_read=0, refuse_write=0, codes_W="OK", codes_R="OK,DATA_OK", codes_U="OK,LIST", codes_T="OK", max_inv=1,
                       act="flags", flag_budget=3 if quick else 0, mon="C09"))
+    # descriptor sweeps with disable subsets and disabled groups, alone and with a second parser object serviced in between
+    sh += sw_shards("tables", "C09", tier, 8, "--family", "small", "--maxk", 2 if quick else 3, "--interfere", 1, tagp="tables-2obj")
+    sh += sw_shards("tables", "C09", tier, 8, "--family", "lanes", "--interfere", 1, tagp="lanes-2obj")
+    sh += sw_shards("describe", "C09", tier, 8, "--family", "shapes", "--pairs", 1, "--interfere", 1, tagp="shapes-2obj")
     return sh
 
 
@@ -375,6 +379,9 @@ def p_c02(tier):
     sh = sw_shards("tables", "C02", tier, 16 if quick else 48, "--family", "small", "--maxk", 3 if quick else 4)
     sh += sw_shards("tables", "C02", tier, 4, "--family", "alphabet")
     sh += sw_shards("tables", "C02", tier, 16, "--family", "lanes")
+    # the same with a second, unrelated parser object serviced between all calls (module-level state shared between objects)
+    sh += sw_shards("tables", "C02", tier, 8, "--family", "small", "--maxk", 2 if quick else 3, "--interfere", 1, tagp="tables-2obj")
+    sh += sw_shards("tables", "C02", tier, 8, "--family", "lanes", "--interfere", 1, tagp="lanes-2obj")
     return {"shards": sh, "require": ["runs", "implicit_hits", "ambiguous_lf", "ambiguous_eq", "notfound", "test_forms"],
             "technique": "exhaustive enumeration of descriptors and typed names on the real parser, compared with a reference transcription of the resolution rule",
             "bounds": "all tables of 1..%d commands named over {A,B}^(1..3) x every disable subset x optional implicit-write member x all typed names {A,B}^(1..4) x 4 suffixes; "
